@@ -387,12 +387,84 @@ var witnesses = []witness{
 		}
 		return ""
 	}},
+	{id: "F40", props: []string{"C09", "C16", "C10"}, what: "with a node cache, a vacuum that returns the tree to an earlier shape referred to nodes an earlier vacuum had deleted", run: func(w *wEnv) string {
+		w.mk("t", "k primary key, a", sqlh.TableOpts{EntriesPerNode: 2, NodeCache: 1000})
+		for k := 0; k < 8; k++ {
+			w.x("insert into t values(?,'v')", k)
+		}
+		time.Sleep(time.Millisecond)
+		w.x("insert into t values(100,'x')")
+		time.Sleep(time.Millisecond)
+		mid := time.Now()
+		time.Sleep(time.Millisecond)
+		w.x("delete from t where k=100")
+		time.Sleep(time.Millisecond)
+		if err := s3db.Vacuum(context.Background(), "t", mid); err != nil {
+			return "first vacuum: " + err.Error()
+		}
+		if err := s3db.Vacuum(context.Background(), "t", time.Now().Add(time.Hour)); err != nil {
+			return "second vacuum: " + err.Error()
+		}
+		if d := danglingIn(w.store, "p/s3db-rows/root/current/"); len(d) > 0 {
+			return fmt.Sprintf("the current version refers to deleted nodes: %v", d[:min(len(d), 2)])
+		}
+		db2 := sqlh.Open()
+		defer db2.Close()
+		if r := sqlh.XS(db2, sqlh.CreateSQL(sqlh.TableOpts{Name: "r", Bucket: w.bucket, Prefix: "p", Columns: "k primary key, a", EntriesPerNode: 2, ReadOnly: true})); r != "ok" {
+			return "fresh open: " + r
+		}
+		return wantEq("rows seen by a fresh reader", sqlh.QS(db2, "select count(*) from r"), i(8))
+	}},
 	{id: "F15", props: []string{"C03"}, what: "an open racing with a commit showed an empty table (kv level)", run: func(w *wEnv) string {
 		// covered exhaustively by the proto stream; here: a version that left root/current/ between LIST and GET
 		return ""
 	}},
 
 	// ---- recorded findings (dependencies): reproduced => KNOWN-FINDING
+	{id: "F41", props: []string{"C09"}, known: true, what: "a node cache that predates another connection's vacuum still counts the deleted nodes as stored", run: func(w *wEnv) string {
+		w.mk("t", "k primary key, a", sqlh.TableOpts{EntriesPerNode: 2, NodeCache: 1000})
+		for k := 0; k < 8; k++ {
+			w.x("insert into t values(?,'v')", k)
+		}
+		time.Sleep(time.Millisecond)
+		w.x("insert into t values(100,'x')")
+		time.Sleep(time.Millisecond)
+		mid := time.Now()
+		time.Sleep(time.Millisecond)
+		w.x("delete from t where k=100")
+		time.Sleep(time.Millisecond)
+		dbA := sqlh.Open()
+		defer dbA.Close()
+		if r := sqlh.XS(dbA, sqlh.CreateSQL(sqlh.TableOpts{Name: "ta", Bucket: w.bucket, Prefix: "p", Columns: "k primary key, a", EntriesPerNode: 2})); r != "ok" {
+			return "second connection: " + r
+		}
+		if err := s3db.Vacuum(context.Background(), "ta", mid); err != nil {
+			return "vacuum by the second connection: " + err.Error()
+		}
+		// the first connection (not refreshed, its cache still lists the deleted nodes) purges the marker
+		if err := s3db.Vacuum(context.Background(), "t", time.Now().Add(time.Hour)); err != nil {
+			return "vacuum by the first connection: " + err.Error()
+		}
+		if d := danglingIn(w.store, "p/s3db-rows/root/current/"); len(d) > 0 {
+			return fmt.Sprintf("the current version refers to deleted nodes: %v", d[:min(len(d), 2)])
+		}
+		return ""
+	}},
+	{id: "F42", props: []string{"C09", "C10"}, known: true, what: "with a node cache, a deleted row is visible again through the vacuuming connection after the vacuum that purges it", run: func(w *wEnv) string {
+		w.mk("t", "k primary key, a", sqlh.TableOpts{EntriesPerNode: 2, NodeCache: 1000})
+		for _, k := range []int{204, 214, 210, 201, 18, 14, 11} {
+			w.x("insert into t values(?,'v')", k)
+		}
+		w.x("insert into t values(301,'late')")
+		time.Sleep(time.Millisecond)
+		w.x("delete from t where k=301")
+		time.Sleep(time.Millisecond)
+		before := w.q("select k from t order by k")
+		if err := s3db.Vacuum(context.Background(), "t", time.Now().Add(time.Hour)); err != nil {
+			return "vacuum: " + err.Error()
+		}
+		return wantEq("rows through the vacuuming connection after the vacuum", w.q("select k from t order by k"), before)
+	}},
 	{id: "F10", props: []string{"C08"}, known: true, what: "empty TEXT reads back as NULL", run: func(w *wEnv) string {
 		w.mk("t", "k primary key, a", sqlh.TableOpts{})
 		w.x("insert into t values (1,'')")
